@@ -5,6 +5,7 @@ From BX Require Import Base.Prelude Base.Fsm Model.TxFsm Model.TxMgr Model.Inter
      Proofs.TxFsmProofs Proofs.IbtpInv Proofs.IbtpBlock Proofs.IbtpProps.
 From BXGen Require Import Gen_TxFsm.
 From Coq Require Import String.
+From BX Require Import Proofs.IbtpMonProofs.
 Local Open Scope N_scope.
 
 (** on the table regenerated from transaction_manager.go: only the protocol's transitions *)
@@ -70,6 +71,13 @@ Theorem C04_total : forall w st ops,
   exists st' bm, exec_block cfg_fixed w st ops = Some (st', bm).
 Proof. exact exec_block_total. Qed.
 Print Assumptions C04_total.
+
+
+(** the boolean predicate the judge evaluates on implementation traces is exactly the inductively
+    defined trace property [C04_trace] (Proofs/IbtpMonProofs.v) *)
+Theorem C04_predicate_reflects : forall w q items tr, c04_b w q items tr = true <-> C04_trace w q c4_init items tr.
+Proof. exact c04_b_spec. Qed.
+Print Assumptions C04_predicate_reflects.
 
 (** * witnesses *)
 Definition w2 : world :=
